@@ -242,7 +242,13 @@ func (t *Object) Resolve(field *Field, args map[string]interface{}) (result inte
 			result = &list
 		}
 	case interfacesStr:
-		result = t.Interfaces
+		// A generic list so it is resolved by ggql itself and not handed to
+		// an application's AnyResolver as an unknown list type.
+		list := make([]interface{}, 0, len(t.Interfaces))
+		for _, i := range t.Interfaces {
+			list = append(list, i)
+		}
+		result = list
 	case possibleTypesStr, enumValuesStr, inputFieldsStr, ofTypeStr:
 		// nil result
 	}
